@@ -165,7 +165,7 @@ def control_task(task):
 
 def locale_pair_task(task):
     """--from-locale A (parsing) and --locale B (printing) act on their own direction only"""
-    bindir, seed, pairs = task
+    bindir, seed, pairs, ndays = task
     import random
     rng = random.Random(seed)
     sh = Shard()
@@ -178,7 +178,7 @@ def locale_pair_task(task):
         long_ = rng.random() < .5
         ifmt, ofmt = ("%A %d %B %Y", "%A, %d %B %Y") if long_ else ("%a %d %b %Y", "%a, %d %b %Y")
         ka, kb = ("A", "B") if long_ else ("a", "b")
-        days = [cal.Day(rng.randrange(cal.ORD_MIN + 400, cal.ORD_MAX - 1500)) for _ in range(5)]
+        days = [cal.Day(rng.randrange(cal.ORD_MIN + 400, cal.ORD_MAX - 1500)) for _ in range(ndays)]
         texts, exps = [], []
         for D in days:
             if tool == "dadd":
@@ -241,10 +241,12 @@ def main(tier, seed):
     if quick:
         pairs = [(rng.choice(parse_ok), rng.choice(allloc)) for _ in range(500)]
     else:
-        pairs = [(a, rng.choice(allloc)) for a in parse_ok for _ in range(40)]
+        # every ordered pair (parsing locale, printing locale)
+        pairs = [(a, b) for a in parse_ok for b in allloc]
     pairs += [(None, b) for b in rng.sample(allloc, 40)] + [(a, None) for a in rng.sample(parse_ok, 40)]
-    for i in range(0, len(pairs), 20):
-        tasks.append(("loc", (bindir, seed * 49979687 + i, pairs[i:i + 20])))
+    step = 20 if quick else 400
+    for i in range(0, len(pairs), step):
+        tasks.append(("loc", (bindir, seed * 49979687 + i, pairs[i:i + step], 5 if quick else 1)))
     for sh in core.pmap(_dispatch, tasks):
         ctx.merge(sh)
     ctx.rule = ("'config' events = one invocation (22 fully specified templates over all tools, 8 templates with underspecified input "
